@@ -40,7 +40,7 @@ class Prior(Distribution, Module, ABC):
             _load_transformed_to_base_dist(self)
 
     def __setattr__(self, name: str, value: Any) -> None:
-        if hasattr(self, name) and "_transformed_" in name:
+        if "_transformed_" in name and hasattr(self, name):
             base_attr_name = name.replace("_transformed_", "")
             raise AttributeError(TRANSFORMED_ERROR_MSG.format(base_attr_name))
 
